@@ -135,6 +135,15 @@ def gen_solve(d: Draw, planet_id, sol_id, spec):
          'nondimensionalize': d.chance(2, 3),
          'raise_on_fail': d.chance(1, 3),
          'max_num_steps': 200000, 'verbose': False, 'warnings': False}
+    # swarm: the remaining documented knobs, varied per call
+    if d.chance(1, 10):
+        o['limit_solution_to_radius'] = d.chance(1, 2)
+    if d.chance(1, 4):
+        o['scale_rtols_by_layer_type'] = d.chance(1, 2)
+    if d.chance(1, 4):
+        o['expected_size'] = d.weighted([(7, 3), (50, 3), (5000, 2), (1, 1)])
+    if d.chance(1, 6):
+        o['integration_atol'] = d.pick([1.0e-6, 1.0e-15])
     sf = d.weighted([(None, 3), (['tidal'], 2), (['loading'], 1), (['free'], 1), (['tidal', 'loading'], 2),
                      (['tidal', 'loading', 'free'], 1)])
     if sf is not None:
@@ -348,6 +357,12 @@ class SolverFaultsEngine(EngineBase):
             if op['op'] == 'solve':
                 n_solves += 1
                 self._judge_solve(i, op, label, reply, ctx, viol, bump, trace, failed_solve_on)
+                if ctx['predicates'].get('expected_size_1') or ctx['predicates'].get('limit_solution_off'):
+                    # known findings C06-K9 / K10: expected_size=1 corrupts the heap, limit_solution_to_radius=False indexes
+                    # past the integrator's own steps - even when the call returns. Nothing observed in this process afterwards can be trusted: end the run and replace the worker.
+                    bump('probe:worker_replaced_after_memory_unsafe_option')
+                    _WORKER.close()
+                    break
             elif op['op'] == 'reread':
                 trace.append('%2d %s -> %s' % (i, label, reply))
                 if reply.get('held'):
@@ -395,6 +410,8 @@ class SolverFaultsEngine(EngineBase):
             stack_class = 'top-' + preds['top_layer']
         if op.get('options'):
             preds['nondimensionalize'] = bool(op['options'].get('nondimensionalize', True))
+            preds['expected_size_1'] = op['options'].get('expected_size') == 1
+            preds['limit_solution_off'] = op['options'].get('limit_solution_to_radius') is False
         return {'predicates': preds, 'stack': stack, 'stack_class': stack_class}
 
     def _judge_solve(self, i, op, label, reply, ctx, viol, bump, trace, failed_solve_on):
@@ -483,7 +500,8 @@ def _label(op):
     if op['op'] == 'solve':
         o = op['options']
         keys = ('solve_for', 'degree_l', 'integration_method', 'nondimensionalize', 'raise_on_fail', 'max_num_steps', 'max_ram_MB',
-                'integration_rtol', 'frequency', 'max_step', 'use_kamata')
+                'integration_rtol', 'integration_atol', 'frequency', 'max_step', 'use_kamata', 'expected_size', 'limit_solution_to_radius',
+                'scale_rtols_by_layer_type')
         return 'solve(planet#%d -> sol#%d fault=%s %s%s)' % (op['planet'], op['sol'], op.get('fault'),
                                                             ' '.join('%s=%s' % (k, o[k]) for k in keys if k in o),
                                                             (' mangle=%s' % op['mangle']) if op.get('mangle') else '')
